@@ -169,5 +169,169 @@ example : ∀ t ∈ symmetrize (1:ℚ) exA, t.1 ≠ 3 ∧ t.2.1 ≠ 3 := by deci
 example : (2, 0, (1/2:ℚ)) ∉ symmetrize (0:ℚ) exA := by decide +kernel
 example : symmetrize (0:ℚ) exA = [(0, 1, 1/4), (1, 0, 1/4)] := by decide +kernel
 
+/-! ### `init_graph_transform`: where a new point starts (umap_.py `init_graph_transform`)
+
+  `row` is the new point's row of the bipartite graph, as `(training index, strength)` pairs;
+  `emb i` is the position of training point `i`. -/
+
+/-- **init_nan_iff**: a new point gets the all-NaN initialisation exactly when its graph row is
+    empty, i.e. when it has no neighbour within the disconnection distance. -/
+theorem init_nan_iff (row : List (Nat × K)) (emb : Nat → List K) (dim : Nat) :
+    initGraphTransformRow row emb dim = none ↔ row = [] := by
+  unfold initGraphTransformRow
+  constructor
+  · intro h
+    by_cases hl : row.length = 0
+    · exact List.length_eq_zero_iff.1 hl
+    · rw [if_neg hl] at h
+      cases hf : row.find? (fun p => eqV p.2 1) <;> rw [hf] at h <;> simp at h
+  · rintro rfl; simp
+
+/-- **init_copy**: if the row has an entry of strength exactly 1, the result is the position of a
+    training point with strength exactly 1 (the first one in the row). -/
+theorem init_copy (row : List (Nat × K)) (emb : Nat → List K) (dim : Nat)
+    (p : Nat × K) (hp : p ∈ row) (h1 : p.2 = 1) :
+    ∃ q ∈ row, q.2 = 1 ∧ initGraphTransformRow row emb dim = some (emb q.1) := by
+  unfold initGraphTransformRow
+  have hl : ¬ row.length = 0 := by
+    intro h; rw [List.length_eq_zero_iff] at h; subst h; simp at hp
+  rw [if_neg hl]
+  cases hf : row.find? (fun p => eqV p.2 1) with
+  | none =>
+    rw [List.find?_eq_none] at hf
+    exact absurd ((eqV_iff _ _).2 h1) (hf p hp)
+  | some q =>
+    have hq := List.find?_some hf
+    exact ⟨q, List.mem_of_find?_eq_some hf, (eqV_iff _ _).1 hq, rfl⟩
+
+/-- when the unit-strength entry is unique, the new point starts exactly at that training point. -/
+theorem init_copy_unique (row : List (Nat × K)) (emb : Nat → List K) (dim : Nat)
+    (p : Nat × K) (hp : p ∈ row) (h1 : p.2 = 1) (hu : ∀ q ∈ row, q.2 = 1 → q.1 = p.1) :
+    initGraphTransformRow row emb dim = some (emb p.1) := by
+  obtain ⟨q, hq, hq1, h⟩ := init_copy row emb dim p hp h1
+  rw [h, hu q hq hq1]
+
+private theorem weighted_sum_bounds (s lo hi : K) (hs : 0 < s) (x : Nat → K) (row : List (Nat × K))
+    (hw : ∀ p ∈ row, 0 < p.2) (hx : ∀ p ∈ row, lo ≤ x p.1 ∧ x p.1 ≤ hi) :
+    sumL (row.map (·.2)) / s * lo ≤ sumL (row.map (fun p => p.2 / s * x p.1))
+    ∧ sumL (row.map (fun p => p.2 / s * x p.1)) ≤ sumL (row.map (·.2)) / s * hi := by
+  induction row with
+  | nil => simp
+  | cons p row ih =>
+    simp only [List.map_cons, sumL_cons]
+    obtain ⟨ih1, ih2⟩ := ih (fun q hq => hw q (List.mem_cons_of_mem _ hq))
+      (fun q hq => hx q (List.mem_cons_of_mem _ hq))
+    have hp : 0 < p.2 / s := div_pos (hw p List.mem_cons_self) hs
+    obtain ⟨hlo, hhi⟩ := hx p List.mem_cons_self
+    have e1 : (p.2 + sumL (row.map (·.2))) / s * lo = p.2 / s * lo + sumL (row.map (·.2)) / s * lo := by
+      ring
+    have e2 : (p.2 + sumL (row.map (·.2))) / s * hi = p.2 / s * hi + sumL (row.map (·.2)) / s * hi := by
+      ring
+    rw [e1, e2]
+    constructor
+    · have := mul_le_mul_of_nonneg_left hlo (le_of_lt hp); linarith
+    · have := mul_le_mul_of_nonneg_left hhi (le_of_lt hp); linarith
+
+private theorem sum_weights_pos (row : List (Nat × K)) (hne : row ≠ [])
+    (hw : ∀ p ∈ row, 0 < p.2) : 0 < sumL (row.map (·.2)) := by
+  have hnn : ∀ l : List (Nat × K), (∀ p ∈ l, 0 < p.2) → 0 ≤ sumL (l.map (·.2)) := by
+    intro l hl
+    induction l with
+    | nil => simp
+    | cons p l ih =>
+      simp only [List.map_cons, sumL_cons]
+      have := hl p List.mem_cons_self
+      have := ih (fun q hq => hl q (List.mem_cons_of_mem _ hq))
+      linarith
+  cases row with
+  | nil => exact absurd rfl hne
+  | cons p row =>
+    simp only [List.map_cons, sumL_cons]
+    have := hw p List.mem_cons_self
+    have := hnn row (fun q hq => hw q (List.mem_cons_of_mem _ hq))
+    linarith
+
+/--
+  **init_convex** (weighted mean).  For a non-empty row with positive strengths and no entry of
+  strength exactly 1, the result is a `dim`-vector each of whose coordinates lies between any
+  lower and upper bound of the neighbours' coordinates — in particular between their minimum and
+  their maximum (`init_convex_min_max`).
+-/
+theorem init_convex (row : List (Nat × K)) (emb : Nat → List K) (dim : Nat) (hne : row ≠ [])
+    (hw : ∀ p ∈ row, 0 < p.2) (hno : ∀ p ∈ row, p.2 ≠ 1) :
+    ∃ out, initGraphTransformRow row emb dim = some out ∧ out.length = dim ∧
+      ∀ d (hd : d < out.length) (lo hi : K),
+        (∀ p ∈ row, lo ≤ (emb p.1).getD d 0 ∧ (emb p.1).getD d 0 ≤ hi) →
+        lo ≤ out[d] ∧ out[d] ≤ hi := by
+  unfold initGraphTransformRow
+  have hl : ¬ row.length = 0 := by
+    intro h; exact hne (List.length_eq_zero_iff.1 h)
+  rw [if_neg hl]
+  have hf : row.find? (fun p => eqV p.2 1) = none := by
+    rw [List.find?_eq_none]
+    intro p hp h; exact hno p hp ((eqV_iff _ _).1 h)
+  rw [hf]
+  refine ⟨_, rfl, by simp, ?_⟩
+  intro d hd lo hi hb
+  have hs := sum_weights_pos row hne hw
+  obtain ⟨b1, b2⟩ := weighted_sum_bounds (sumL (row.map (·.2))) lo hi hs
+    (fun i => (emb i).getD d 0) row hw hb
+  rw [div_self (ne_of_gt hs), one_mul] at b1 b2
+  simp only [List.length_map, List.length_range] at hd
+  simp only [List.getElem_map, List.getElem_range]
+  exact ⟨b1, b2⟩
+
+/-- the same with the explicit running minimum and maximum of the neighbours' `d`-th coordinates. -/
+theorem init_convex_min_max (row : List (Nat × K)) (emb : Nat → List K) (dim : Nat) (hne : row ≠ [])
+    (hw : ∀ p ∈ row, 0 < p.2) (hno : ∀ p ∈ row, p.2 ≠ 1) :
+    ∃ out, initGraphTransformRow row emb dim = some out ∧ out.length = dim ∧
+      ∀ d (hd : d < out.length),
+        let cs := row.map (fun p => (emb p.1).getD d 0)
+        minL (cs.headD 0) cs ≤ out[d] ∧ out[d] ≤ maxL (cs.headD 0) cs := by
+  obtain ⟨out, h1, h2, h3⟩ := init_convex row emb dim hne hw hno
+  refine ⟨out, h1, h2, ?_⟩
+  intro d hd cs
+  apply h3 d hd
+  intro p hp
+  have hm : (emb p.1).getD d 0 ∈ cs := List.mem_map.2 ⟨p, hp, rfl⟩
+  refine ⟨?_, le_maxL _ _ _ hm⟩
+  -- the running minimum is below every element
+  have minL_le : ∀ (init : K) (xs : List K) (x : K), x ∈ xs → minL init xs ≤ x := by
+    intro init xs
+    induction xs generalizing init with
+    | nil => intro x hx; simp at hx
+    | cons y xs ih =>
+      intro x hx
+      rw [minL_cons]
+      have hle : ∀ (i : K) (l : List K), minL i l ≤ i := by
+        intro i l
+        induction l generalizing i with
+        | nil => exact le_refl _
+        | cons z l ih2 =>
+          rw [minL_cons]
+          refine le_trans (ih2 _) ?_
+          split_ifs with h
+          · exact le_of_lt h
+          · exact le_refl _
+      rcases List.mem_cons.1 hx with rfl | h
+      · refine le_trans (hle _ _) ?_
+        split_ifs with h
+        · exact le_refl _
+        · exact not_lt.1 h
+      · exact ih _ x h
+  exact minL_le _ _ _ hm
+
+/-! non-vacuity over ℚ: two neighbours with strengths 1/2 and 1/4 in the plane. -/
+
+def exEmb : Nat → List ℚ := fun i => if i = 0 then [0, 3] else if i = 1 then [3, 0] else [9, 9]
+
+example : initGraphTransformRow [(0, (1/2:ℚ)), (1, 1/4)] exEmb 2 = some [1, 2] := by decide +kernel
+example : initGraphTransformRow [(0, (1/2:ℚ)), (2, 1), (1, 1/4)] exEmb 2 = some [9, 9] := by
+  decide +kernel
+example : initGraphTransformRow ([] : List (Nat × ℚ)) exEmb 2 = none := by decide +kernel
+example : ([(0, (1/2:ℚ)), (1, 1/4)] : List (Nat × ℚ)) ≠ [] ∧
+    (∀ p ∈ ([(0, (1/2:ℚ)), (1, 1/4)] : List (Nat × ℚ)), 0 < p.2) ∧
+    (∀ p ∈ ([(0, (1/2:ℚ)), (1, 1/4)] : List (Nat × ℚ)), p.2 ≠ 1) := by decide +kernel
+
 end C04
 end Umap
